@@ -7,8 +7,12 @@ VMM_ASSUME = ['simulated machine: physical memory = host pages (frame = host add
 
 PROP = {
     'pkg': K + '/mm/vmm',
-    'tests': [{'name': 'TestVerifC07', 'checks_quick': 150000, 'checks_thorough': 5000000}],
-    'rule': 'rapid generates sequences (<=40) of EarlyReserveRegion / MapRegion / IdentityMapRegion with sizes from '
+    'tests': [{'name': 'TestVerifC07', 'checks_quick': 150000, 'checks_thorough': 5000000},
+              {'name': 'TestVerifC07Pmm', 'pkg': K + '/mm/pmm', 'checks_quick': 8000, 'checks_thorough': 300000}],
+    'rule': 'Two tests. (pmm side) pmm.Init over generated memory maps, half of them sized so that the allocator state '
+            '(pool headers + bitmaps) is within one word of a page multiple: the pages Init maps through the region it '
+            'reserved must be exactly the pages that cover the reserved size, each once, none outside. (vmm side) '
+            'rapid generates sequences (<=40) of EarlyReserveRegion / MapRegion / IdentityMapRegion with sizes from '
             '{0,1,4095,4096,4097, k pages+tail, remaining-space +-{0,1,4095,4096,4097}, 2^62, 2^63, 2^64-4096..2^64-1, any '
             'uint64, large chunks that move the cursor near the bottom}; the map seam records (page, frame, flags) and can '
             'fail at the j-th call. Oracle (arbitrary-precision arithmetic): success iff the rounded size fits below the '
